@@ -471,3 +471,175 @@ Proof.
       * apply filter_In. split; [exact Hon|]. unfold anc_is. rewrite Hanc, Ea. apply Z.eqb_refl.
       * rewrite (dict_get_nodup o c2r N1). exact Hr.
 Qed.
+
+(* ------------------------------------------------------------------ *)
+(* 5. truncate never raises on a legitimate request                     *)
+Lemma group_by_total anc : forall olds g0, (forall o, In o olds -> exists k, anc o = Some k) ->
+  exists g, group_by anc olds g0 = Some g.
+Proof.
+  induction olds as [|o t IH]; intros g0 H; [exists g0; reflexivity|].
+  cbn [group_by]. destruct (H o (or_introl eq_refl)) as (k & E). rewrite E.
+  apply IH. intros o' Ho'. apply H. right. exact Ho'.
+Qed.
+
+Lemma set_row_total : forall u s buf, (u < length buf)%nat ->
+  exists b', set_row u s buf = Some b' /\ length b' = length buf.
+Proof.
+  induction u as [|u IH]; intros s [|b t] H; cbn in *; try lia.
+  - eexists. split; reflexivity.
+  - destruct (IH s t) as (t' & E & L); [lia|]. rewrite E. eexists. split; [reflexivity | cbn; lia].
+Qed.
+
+Lemma convert_loop_total ng data oc nc : forall groups acc,
+  (forall L olds, In (L, olds) groups ->
+     (exists dst, dict_get L nc = Some dst /\ (dst < length acc)%nat) /\
+     forall o, In o olds -> exists r, dict_get o oc = Some r /\ (r < length data)%nat) ->
+  exists T, convert_loop ng data oc nc groups acc = Ok T.
+Proof.
+  induction groups as [|[L0 olds0] t IH]; intros acc H; [exists acc; reflexivity|].
+  cbn [convert_loop]. destruct (H L0 olds0 (or_introl eq_refl)) as ((dst & Ed & Hd) & Ho). rewrite Ed.
+  destruct (opt_map_total (fun o => dict_get o oc) olds0) as (src & Es).
+  { intros o Hin. destruct (Ho o Hin) as (r & Er & _). exists r. exact Er. }
+  rewrite Es.
+  assert (Hsrc : forall r, In r src -> (r < length data)%nat).
+  { intros r Hr. apply (opt_map_in _ _ _ Es r) in Hr. destruct Hr as (o & Hin & Eo).
+    destruct (Ho o Hin) as (r' & Er' & Hlt). rewrite Eo in Er'. inversion Er'; subst. exact Hlt. }
+  destruct (opt_map_total (fun r => nth_error data r) (map Z.to_nat (zsort (map Z.of_nat src)))) as (rows & Er).
+  { intros r Hr. apply (Permutation_in _ (sorted_rows_perm src)) in Hr. apply Hsrc in Hr.
+    destruct (nth_error data r) as [x|] eqn:E; [exists x; reflexivity|]. apply nth_error_None in E. lia. }
+  rewrite Er.
+  destruct (set_row_total dst (sum_rows ng rows) acc Hd) as (acc' & Ea & La). rewrite Ea.
+  apply IH. intros L olds Hin. destruct (H L olds (or_intror Hin)) as ((d & E1 & E2) & E3).
+  split; [exists d; split; [exact E1 | lia] | exact E3].
+Qed.
+
+Lemma trunc_drop_total : forall t new_hier, validate t = true -> wf t ->
+  let n := length t in
+  filter (fun l => nat_mem l new_hier) (seq 0 n) <> [] ->
+  exists nt hier',
+    Stats.drop_levels t (seq 0 n) (filter (fun l => negb (nat_mem l new_hier)) (seq 0 n)) = Ok (nt, hier').
+Proof.
+  intros t new_hier V W n Hk.
+  pose proof (validate_nonempty t V) as Hn. fold n in Hn.
+  destruct (trunc_inner t new_hier V W) as (lis & t1 & hier1 & OK & LL & ET & ES & EH & EN).
+  fold n in OK, ES, EH, EN, LL.
+  set (inner := filter (fun l => negb (nat_mem l new_hier)) (seq 0 (n - 1))) in *.
+  set (ki := filter (fun l => nat_mem l new_hier) (seq 0 (n - 1))) in *.
+  destruct (drop_levels_preserve lis t V W OK) as (t1' & ET' & V1 & W1 & L1 & _).
+  rewrite ET in ET'. inversion ET'; subst t1'. clear ET'. fold n in L1.
+  assert (Hsplit : (length ki + length inner = n - 1)%nat).
+  { unfold ki, inner. rewrite (filter_length_split (fun l => nat_mem l new_hier) (seq 0 (n - 1))). apply seq_length. }
+  assert (Ed : filter (fun l => negb (nat_mem l new_hier)) (seq 0 n) =
+               inner ++ (if nat_mem (n - 1) new_hier then [] else [(n - 1)%nat])).
+  { rewrite (seq_snoc n Hn), filter_app. cbn [filter]. destruct (nat_mem (n - 1) new_hier); reflexivity. }
+  assert (Ek : filter (fun l => nat_mem l new_hier) (seq 0 n) =
+               ki ++ (if nat_mem (n - 1) new_hier then [(n - 1)%nat] else [])).
+  { rewrite (seq_snoc n Hn), filter_app. cbn [filter]. destruct (nat_mem (n - 1) new_hier); reflexivity. }
+  rewrite Ed. rewrite Ek in Hk. clear Ed Ek.
+  destruct (nat_mem (n - 1) new_hier) eqn:Em.
+  - rewrite app_nil_r. exists t1, hier1. exact ES.
+  - rewrite app_nil_r in Hk. rewrite sdrop_app, ES. cbn [bind fst snd Stats.drop_levels]. rewrite EH.
+    assert (Hnin : ~ In (n - 1)%nat ki).
+    { intros Hx. apply filter_In in Hx. destruct Hx as [Hx _]. apply in_seq in Hx. lia. }
+    rewrite (index_of_last ki _ Hnin). rewrite app_length. cbn [length].
+    replace (Nat.eqb (S (length ki)) (length ki + 1)) with true by (symmetry; apply Nat.eqb_eq; lia).
+    assert (H2 : (2 <= length t1)%nat).
+    { destruct ki as [|x ki']; [congruence|]. cbn [length] in Hsplit. lia. }
+    destruct (drop_leaf_preserves t1 V1 W1 H2) as (t2 & E2 & _). rewrite E2.
+    eexists. eexists. reflexivity.
+Qed.
+
+Lemma anc_node t o lvl L : wf t -> (lvl < length t - 1)%nat ->
+  Tree.ancestor_at t (length t - 1) o lvl = Some L -> In L (nodes (nth lvl t [])).
+Proof.
+  intros W Hl E. rewrite (ancestor_at_chain t (length t - 1) o lvl Hl) in E.
+  destruct (Tree.ancestor_at t (length t - 1) o (S lvl)) as [c|]; [|discriminate E].
+  apply (parent_of_children t lvl L c W E).
+Qed.
+
+(* any statistics file whose row map covers the leaves of its taxonomy with rows of the table *)
+Theorem truncation_total : forall ng t new_hier c2r data,
+  validate t = true -> wf t ->
+  (forall o, In o (nodes (leaf_level t)) -> exists r, dict_get o c2r = Some r /\ (r < length data)%nat) ->
+  new_hier <> [] -> Forall (fun l => (l < length t)%nat) new_hier -> nat_sorted_b new_hier = true ->
+  (exists l, (l < length t)%nat /\ ~ In l new_hier) ->
+  exists nt nc T, truncate ng t new_hier c2r data = Ok (nt, nc, T).
+Proof.
+  intros ng t new_hier c2r data V W Hrows Hne Hin Hsorted (l0 & Hl0 & Hnot).
+  set (n := length t) in *.
+  assert (Hkept : filter (fun l => nat_mem l new_hier) (seq 0 n) <> []).
+  { destruct new_hier as [|h hs]; [congruence|]. inversion Hin as [|x xs Hh _]; subst x xs.
+    intros E. assert (Hx : In h (filter (fun l => nat_mem l (h :: hs)) (seq 0 n))).
+    { apply filter_In. split; [apply in_seq; lia | apply nat_mem_in; left; reflexivity]. }
+    rewrite E in Hx. destruct Hx. }
+  destruct (trunc_drop_total t new_hier V W Hkept) as (nt & hier' & Hdrop). fold n in Hdrop.
+  destruct (trunc_tree t new_hier nt hier' V W Hdrop) as (_ & V2 & W2 & L2 & K1 & Hlvl & _ & N2 & _ & _).
+  fold n in L2, K1, Hlvl, N2.
+  pose proof (drop_levels_hier _ _ _ _ _ (seq_NoDup n 0) Hdrop) as Eh. rewrite kept_levels in Eh.
+  set (kept := filter (fun l => nat_mem l new_hier) (seq 0 n)) in *.
+  set (lvl := last kept 0%nat) in *.
+  unfold truncate. cbv zeta. fold n.
+  destruct (list_eq_dec Nat.eq_dec new_hier (seq 0 n)) as [E|_].
+  { exfalso. apply Hnot. rewrite E. apply in_seq. lia. }
+  replace (forallb (fun l => nat_mem l (seq 0 n)) new_hier) with true.
+  2:{ symmetry. apply forallb_forall. intros x Hx. apply nat_mem_in. apply in_seq.
+      rewrite Forall_forall in Hin. specialize (Hin x Hx). fold n in Hin. lia. }
+  rewrite Hsorted. cbn [negb].
+  destruct (filter (fun l => negb (nat_mem l new_hier)) (seq 0 n)) as [|d0 ds] eqn:Ef.
+  { exfalso. assert (Hx : In l0 (filter (fun l => negb (nat_mem l new_hier)) (seq 0 n))).
+    { apply filter_In. split; [apply in_seq; lia|]. apply negb_true_iff.
+      destruct (nat_mem l0 new_hier) eqn:E; [|reflexivity]. apply nat_mem_in in E. contradiction. }
+    rewrite Ef in Hx. destruct Hx. }
+  rewrite Hdrop. cbn [bind]. rewrite Eh. fold lvl.
+  destruct (Nat.eqb_spec lvl (n - 1)) as [El|El]; [eexists; eexists; eexists; reflexivity|].
+  set (newl := nodes (leaf_level nt)).
+  assert (Enew : newl = nodes (nth lvl t [])).
+  { unfold newl. rewrite leaf_level_nth, L2. rewrite N2 by lia. unfold lvl. rewrite last_is_nth. reflexivity. }
+  assert (Hanc : forall o, Stats.ancestor_at t lvl o = Tree.ancestor_at t (n - 1) o lvl)
+    by (intros o; apply sanc_eq; exact El).
+  assert (Hn : (1 <= n)%nat) by apply (validate_nonempty t V).
+  destruct (group_by_total (Stats.ancestor_at t lvl) (nodes (leaf_level t)) []) as (groups & Eg).
+  { intros o Ho. rewrite Hanc. rewrite leaf_level_nth in Ho.
+    apply (ancestor_at_exists t (n - 1) o lvl V); [unfold n in *; lia | exact Ho | lia]. }
+  rewrite Eg.
+  destruct (group_by_spec _ _ _ Eg) as (_ & Hg).
+  assert (NDn : NoDup newl) by apply (wf_leaf nt W2).
+  unfold convert_to_new_leaves.
+  destruct (convert_loop_total ng data c2r (combine newl (seq 0 (length newl))) groups
+              (tzero (length (combine newl (seq 0 (length newl)))) ng)) as (T & ET).
+  { intros L olds HLo. apply Hg in HLo. destruct HLo as [Eo Hno]. split.
+    - destruct olds as [|o os]; [congruence|].
+      assert (Ho : In o (filter (anc_is (Stats.ancestor_at t lvl) L) (nodes (leaf_level t)))) by (rewrite <- Eo; left; reflexivity).
+      apply filter_In in Ho. destruct Ho as [_ Ho]. unfold anc_is in Ho. rewrite Hanc in Ho.
+      destruct (Tree.ancestor_at t (n - 1) o lvl) as [a|] eqn:Ea; [|discriminate Ho]. apply Z.eqb_eq in Ho. subst a.
+      assert (HL : In L newl) by (rewrite Enew; apply (anc_node t o lvl L W); [fold n; lia | exact Ea]).
+      destruct (c2r_generic newl NDn) as [G1 _]. destruct (G1 L HL) as (dst & Hdst & Hlt & _).
+      exists dst. split.
+      + rewrite dict_get_nodup; [exact Hdst|]. rewrite map_fst_combine by (rewrite seq_length; reflexivity). exact NDn.
+      + unfold tzero. rewrite repeat_length, combine_length, seq_length, Nat.min_id. exact Hlt.
+    - intros o Ho. rewrite Eo in Ho. apply filter_In in Ho. destruct Ho as [Ho _]. apply Hrows. exact Ho. }
+  match goal with |- context [bind ?x _] => replace x with (@Ok table T) by (symmetry; exact ET) end.
+  cbn [bind]. eexists. eexists. eexists. reflexivity.
+Qed.
+
+(* ... in particular the file the writer produces *)
+Corollary truncation_total_writer : forall D ng t files rows p new_hier c2r data,
+  validate t = true -> wf t -> files_wf ng files -> (1 <= rows)%nat -> (1 <= p)%nat ->
+  precompute D (leaf_level t) files rows p = Ok (c2r, data) ->
+  new_hier <> [] -> Forall (fun l => (l < length t)%nat) new_hier -> nat_sorted_b new_hier = true ->
+  (exists l, (l < length t)%nat /\ ~ In l new_hier) ->
+  exists nt nc T, truncate ng t new_hier c2r data = Ok (nt, nc, T).
+Proof.
+  intros D ng t files rows p new_hier c2r data V W Hfw Hr Hp Hpre.
+  apply truncation_total; [exact V | exact W |].
+  set (leaf := (leaf_level t : list (Z * list Z))).
+  assert (NDl : NoDup (map fst leaf)) by (apply (wf_leaf t W)).
+  destruct (table_is_direct D leaf files rows p ng NDl Hr Hp Hfw) as (lookup & _ & Epre).
+  fold leaf in Hpre. rewrite Hpre in Epre.
+  destruct (existsb (named lookup) (all_cells files)); [|discriminate Epre].
+  inversion Epre as [[Ec2r Edata]]. clear Epre.
+  pose proof (rows_by_name leaf NDl) as RB. cbv zeta in RB. destruct RB as (RB1 & _ & RB3 & _).
+  intros o Ho. destruct (RB3 o Ho) as (r & Er & Hlt & _). exists r. split.
+  - try rewrite Ec2r. unfold node in *. rewrite dict_get_nodup; [exact Er|]. rewrite RB1. apply zsort_nodup. exact NDl.
+  - try rewrite Edata. rewrite map_length, seq_length. rewrite map_length in Hlt. exact Hlt.
+Qed.
